@@ -113,7 +113,7 @@ def parse_fails(line):
 
 def gen_cases(tier, rng):
     r = rng.fork("names")
-    nnames = 150 if tier == "quick" else 2500
+    nnames = 150 if tier == "quick" else 8000
     names = {}
     for t in ("Test Game", "S.T.A.L.K.E.R", "Dino D-Day", "Grand Theft Auto XIV", "7 Days to Die", "Darkest Hour: Europe '44-'45",
               "Grand Theft Auto V - FiveM (2013)", "Just Cause 3 - Multiplayer", "Left 4 Dead", "65536 Days to Die", "1944-1945 Darkest Hour Europe (2008)",
@@ -162,7 +162,7 @@ def gen_cases(tier, rng):
                       "meta": {"stream": "number-dash-text", "name": n, "tags": ["numdash"]}})
     # lists of 1-4 games: shared names, colliding acronyms, years, editions
     nl = list(names)
-    for k in range(60 if tier == "quick" else 1200):
+    for k in range(60 if tier == "quick" else 4000):
         m = 1 + r.below(4)
         base = r.choice(nl)
         games = []
